@@ -43,6 +43,19 @@ def mm_prior(u, stretch=1.0):
     return np.asarray(u) * stretch
 
 
+def mm_prior_inplace(u, stretch=1.0):
+    """a prior that writes into the array it is given (allowed: the sampler must hand it a copy)"""
+    u *= stretch
+    return u
+
+
+def mm_like_mixed(x, scale=1.0, offset=0.0):
+    """three blobs of different types: an integer identifier beyond 2**53 (not representable as a float), a float, a bool"""
+    x = np.asarray(x)
+    ident = np.int64(2 ** 53 + 1 + 2 * int(x[0] * 1e6))
+    return float(-0.5 * scale * np.sum(((x - 0.45) / 0.12) ** 2) + offset), ident, float(x[1] * 3.0 + offset), bool(x[0] > x[1])
+
+
 def mode_matrix(seed):
     """returns (cases, failures): every posterior row must carry exactly what the user's likelihood (with the user's keyword
     arguments) returns for that row, whatever evaluates it"""
@@ -54,9 +67,13 @@ def mode_matrix(seed):
               dict(name='pool=3,likelihood_kwargs,prior_kwargs', pool=3, like=mm_like, likelihood_kwargs=kws, prior_kwargs=dict(stretch=0.9)),
               dict(name='serial,likelihood_kwargs', pool=None, like=mm_like, likelihood_kwargs=kws),
               dict(name='vectorized,likelihood_kwargs', pool=None, like=mm_like_vec, likelihood_kwargs=kws, vectorized=True),
-              dict(name='pool=2,Prior-dict,likelihood_kwargs', pool=2, like=mm_like_dict, likelihood_kwargs=kws, prior='dict')]
+              dict(name='pool=2,Prior-dict,likelihood_kwargs', pool=2, like=mm_like_dict, likelihood_kwargs=kws, prior='dict'),
+              dict(name='pool=2,in-place prior', pool=2, like=mm_like, likelihood_kwargs=kws, prior='inplace', prior_kwargs=dict(stretch=0.9)),
+              dict(name='serial,in-place prior,n_batch=1', pool=None, like=mm_like, likelihood_kwargs=kws, prior='inplace', prior_kwargs=dict(stretch=0.9), n_batch=1),
+              dict(name='serial,mixed blob types', pool=None, like=mm_like_mixed, likelihood_kwargs=kws, mixed=True),
+              dict(name='pool=2,mixed blob types,n_batch=1', pool=2, like=mm_like_mixed, likelihood_kwargs=kws, mixed=True, n_batch=1)]
     for k, c in enumerate(matrix):
-        kw = dict(n_live=60, n_batch=12, n_networks=0, seed=seed + k, pool=c['pool'], vectorized=c.get('vectorized', False),
+        kw = dict(n_live=60, n_batch=c.get('n_batch', 12), n_networks=0, seed=seed + k, pool=c['pool'], vectorized=c.get('vectorized', False),
                   likelihood_kwargs=c.get('likelihood_kwargs') or {}, prior_kwargs=c.get('prior_kwargs') or {})
         if c.get('prior') == 'dict':
             pr = Prior()
@@ -64,20 +81,30 @@ def mode_matrix(seed):
             pr.add_parameter('b', dist=uniform(0.1, 0.8))
             args = (pr, c['like'])
         else:
-            args = (mm_prior, c['like'])
+            args = (mm_prior_inplace if c.get('prior') == 'inplace' else mm_prior, c['like'])
             kw['n_dim'] = 2
         s = None
         try:
             with warnings.catch_warnings(), contextlib.redirect_stdout(io.StringIO()):
                 warnings.simplefilter('ignore')
                 s = Sampler(*args, **kw)
-                s.run(n_eff=120, verbose=False)
+                s.run(n_eff=40 if c.get('n_batch') == 1 else 120, verbose=False)
                 pts, log_w, log_l, blobs = s.posterior(return_blobs=True)
             lkw = c.get('likelihood_kwargs') or {}
             bad = None
             for j in range(len(pts)):
                 if c.get('prior') == 'dict':
                     want = mm_like_dict({'a': pts[j][0], 'b': pts[j][1]}, **lkw)
+                elif c.get('mixed'):
+                    want = mm_like_mixed(pts[j], **lkw)
+                    names = blobs.dtype.names or ()
+                    got = tuple(blobs[j][n] for n in names)
+                    kinds = tuple(blobs.dtype[n].kind for n in names)
+                    if kinds != ('i', 'f', 'b') or float(log_l[j]) != want[0] or len(got) != 3 or int(got[0]) != int(want[1]) or \
+                            float(got[1]) != want[2] or bool(got[2]) != want[3]:
+                        bad = (j, float(log_l[j]), 'blobs %r of kinds %r' % (tuple(map(str, got)), kinds), want)
+                        break
+                    continue
                 else:
                     want = mm_like(pts[j], **lkw)
                 if not (float(log_l[j]) == want[0] and float(blobs[j]) == want[1]):
